@@ -3050,7 +3050,7 @@ def falsy_cases():
 # do_*_descriptor create the md:Extensions container first and put nothing into it (do_extensions returns None / []):
 # an EMPTY <md:Extensions/> is written, which the metadata schema forbids.  Reported (round 5); until decided the
 # class is generated only with this switch on.
-R5_EMPTY_EXTENSIONS = False
+R5_EMPTY_EXTENSIONS = True   # the empty-container defect was repaired in /repo (fix: 4dc2d594); the forms stay in the stream
 
 ROLE_EXTENSIONS = [
     ("shibmd", {"shibmd": {"Scope": {"text": "example.org", "regexp": "false"}}}),
